@@ -87,6 +87,27 @@ Section Pacing.
           do r <- pace_loop ts nowMS startMS (S k') avail' rest ; Ok ((availMS, k') :: r)
     end.
 
+  (** The same loop with the test [if ctx.Err() != nil { return ctx.Err() }] at the top of every
+      iteration: [cancelled k] says whether the request context has ended (client gone, request
+      timeout of the server) when the loop is at position [k].  [time.Sleep] does not look at the
+      context.  The result is what has been written when the loop stops. *)
+  Fixpoint pace_loop_c (cancelled : nat -> bool) (ts nowMS startMS : Z) (k : nat) (avail : Z) (cs : list chunk)
+    : list (Z * nat) :=
+    match cs with
+    | [] => []
+    | c :: rest =>
+      if cancelled k then [] else
+      let avail' := avail + c_dur c in
+      let availMS := Z.quot (avail' * 1000) ts in
+      if availMS <? nowMS then (availMS, k) :: pace_loop_c cancelled ts nowMS startMS (S k) avail' rest
+      else
+        let nowUpdateMS := clock k - startMS + nowMS in
+        if availMS <? nowUpdateMS then (availMS, S k) :: pace_loop_c cancelled ts nowMS startMS (S (S k)) avail' rest
+        else
+          let k' := sleep (S k) (availMS - nowUpdateMS) in
+          (availMS, k') :: pace_loop_c cancelled ts nowMS startMS (S k') avail' rest
+    end.
+
   (** [startUnixMS := unixMS()] at position [k0], then the loop.  [ctx.Err()] is taken to be nil
       (a cancelled request writes a prefix of the chunks). *)
   Definition writeChunked (ts nowMS startTimeS newTime : Z) (k0 : nat) (cs : list chunk)
